@@ -59,6 +59,7 @@ type world struct {
 	n      *node.Node
 	out    *vh.Out
 	failed bool
+	others int
 }
 
 func (w *world) fail(what string, err error) {
@@ -82,6 +83,27 @@ func (w *world) write(p point) {
 	if err := w.n.Family.WriteRows(br.Rows()); err != nil {
 		w.fail("WriteRows", err)
 	}
+}
+
+func (w *world) otherHour() error {
+	ft := familyTime + int64(1+(w.others/2)%3)*3600000 // two visits per hour: the second finds the family without a memory database
+	w.others++
+	fam, err := w.n.Shard.GetOrCrateDataFamily(ft)
+	if err != nil {
+		return err
+	}
+	pm := &protoMetricsV1.Metric{Name: "m", Namespace: "ns", Timestamp: ft + 70000,
+		Tags:         []*protoMetricsV1.KeyValue{{Key: "host", Value: hosts[0]}},
+		SimpleFields: []*protoMetricsV1.SimpleField{{Name: fieldDefs[0].name, Type: fieldDefs[0].pt, Value: 77}}}
+	var br metric.StorageBatchRows
+	br.UnmarshalRows(node.Block(pm))
+	if err := fam.WriteRows(br.Rows()); err != nil {
+		return err
+	}
+	if err := w.n.FlushMetaAndIndex(); err != nil {
+		return err
+	}
+	return fam.Flush()
 }
 
 // read everything a leaf scan loads: (host, field idx) -> sources oldest first, each slot -> value
@@ -274,6 +296,13 @@ func runHistory(out *vh.Out, root string, id int, name string, script []stepJ) {
 			time.Sleep(2 * time.Millisecond)
 			kv.VerifWaitBackground(fam)
 			compacted = true
+		case "x":
+			// another hour of the day: the same metric and series written into a second family of the shard right now
+			// (its memory database is created in the same instant as the next one of the family under test) and
+			// flushed at once; nothing the family under test shows may change
+			if err := w.otherHour(); err != nil {
+				w.fail("other hour", err)
+			}
 		case "o":
 			w.n.Close() // a clean close flushes
 			n2, err := node.Open(dir, option.Intervals{{Interval: interval}}, familyTime, false)
@@ -379,9 +408,11 @@ func randomScript(r *vh.Rand) []stepJ {
 			if r.Chance(20) {
 				base = r.Intn(300)
 			}
-		case x < 90:
+		case x < 89:
 			sc = append(sc, stepJ{K: "f"})
-		case x < 95:
+		case x < 92:
+			sc = append(sc, stepJ{K: "x"})
+		case x < 96:
 			sc = append(sc, stepJ{K: "c"})
 		default:
 			sc = append(sc, stepJ{K: "o"})
@@ -417,8 +448,9 @@ func main() {
 	runHistory(out, root, 1, "a slot revisited after a window change", []stepJ{wp(0, 5, all(1)), wp(0, 100, all(2)), wp(0, 5, all(3)), wp(0, 200, all(9)), {K: "f"}})
 	runHistory(out, root, 2, "a write window that extends the compressed block on both sides", []stepJ{wp(0, 100, all(1)), wp(0, 99, all(3)), wp(0, 101, all(4)), wp(0, 200, all(5)), wp(1, 50, all(1)), wp(1, 49, all(2)), wp(1, 51, all(3)), wp(1, 300, all(4)), wp(1, 52, all(5)), {K: "f"}})
 	runHistory(out, root, 3, "a flushed block that holds one field which is not the first of the query", []stepJ{wp(0, 10, all(1)), {K: "f"}, wp(0, 20, map[int]int{3: 5}), wp(1, 20, map[int]int{2: 7}), {K: "f"}, wp(0, 30, map[int]int{4: 9}), {K: "f"}})
+	runHistory(out, root, 4, "two families of the shard get their memory databases in the same instant, the other one is flushed", []stepJ{wp(0, 10, all(1)), {K: "x"}, {K: "f"}, wp(0, 20, all(2)), {K: "x"}, wp(0, 30, all(3)), {K: "f"}})
 	for i := 0; i < cfg.N; i++ {
-		runHistory(out, root, 4+i, "random", randomScript(r))
+		runHistory(out, root, 5+i, "random", randomScript(r))
 	}
 	// the query level: statements answered by the real query path on one storage node
 	nq := cfg.N / 4
